@@ -3,6 +3,7 @@ import Driver.TextTableDrv
 import Driver.KeywordsDrv
 import Driver.SpecifiersDrv
 import Driver.ArithDrv
+import Driver.CnipDrv
 /-! `psymodel <component>`: reads one case per line on stdin, answers one line per case. -/
 
 partial def loop (h : IO.FS.Stream) (out : IO.FS.Stream) (f : String → String) : IO Unit := do
@@ -20,4 +21,5 @@ def main (args : List String) : IO UInt32 := do
   | ["keywords"] => loop stdin stdout Driver.KeywordsDrv.handle; return 0
   | ["specifiers"] => loop stdin stdout Driver.SpecifiersDrv.handle; return 0
   | ["arith"] => loop stdin stdout Driver.ArithDrv.handle; return 0
+  | ["cnip"] => loop stdin stdout Driver.CnipDrv.handle; return 0
   | _ => IO.eprintln "usage: psymodel <component>"; return 2
